@@ -47,8 +47,16 @@ def _id(rng):
     return rng.choice(["A", "B1", "403", "p 7", "x-y", "Ž1"])
 
 
-def gen_result(rng, size=None):
-    """a document the reader accepts: same element order as gama-local's own output, random sizes / options"""
+# regression inputs with an expectation: (band+1)*dim = INT_MAX passed the overflow test and made CovMat::reset allocate and clear
+# 16 GB before any <flt> was seen (fixed by 3e87ff8): must be refused at the line of </band>, and fast (10 s CPU limit of the harness)
+CORPUS_EXPECT = {"result-dim-intmax-band0.xml": ("refuse", 61)}
+
+
+def gen_result(rng, size=None, excess=0):
+    """a document the reader accepts: same element order as gama-local's own output, random sizes / options; self-consistent like
+    gama-local's own results: <dim> = number of adjustment indexes announced before <cov-mat> (2 per adjusted point with x and y,
+    1 per adjusted point with z, 1 per orientation).  excess > 0: dim exceeds that number (must be REFUSED, located; fix 3e87ff8);
+    the line of </band>, where the test runs, is returned in gen_result.neg_line"""
     n = size if size is not None else rng.randrange(0, 5)
     L = ['<?xml version="1.0"?>', f'<gama-local-adjustment xmlns="{XMLNS}">', "", "<description>", rng.choice(["", "net & co", "a\nb"]).replace("&", "&amp;"), "</description>", ""]
     at = [("gama-local-version", "2.32"), ("gama-local-algorithm", "gso"), ("gama-local-compiler", "GNU"), ("axes-xy", "ne"),
@@ -80,16 +88,22 @@ def gen_result(rng, size=None):
         cap = adj and rng.random() < 0.3
         x, y, z = ("X", "Y", "Z") if cap else ("x", "y", "z")
         s = f"   <point> <id>{_id(rng)}</id>"
+        k = 0
         if r < 0.7:
             s += f" <{x}>{_f(rng)}</{x}> <{y}>{_f(rng)}</{y}>"
+            k += 2
         if r > 0.4:
             s += f" <{z}>{_f(rng)}</{z}>"
-        return s + " </point>"
+            k += 1
+        return s + " </point>", k
     nunk = 0
     for sec in ("fixed", "approximate", "adjusted"):
         L.append(f"<{sec}>")
         for _ in range(rng.randrange(0, n + 2)):
-            L.append(point(sec == "adjusted"))
+            ps, k = point(sec == "adjusted")
+            L.append(ps)
+            if sec == "adjusted":
+                nunk += k
         L.append(f"</{sec}>")
     if rng.random() < 0.6:
         L.append("<std-error-ellipses>")
@@ -99,14 +113,19 @@ def gen_result(rng, size=None):
     L.append("<orientation-shifts>")
     for _ in range(rng.randrange(0, n + 1)):
         L.append(f"   <orientation> <id>{_id(rng)}</id> <approx>{_f(rng)}</approx> <adj>{_f(rng)}</adj> </orientation>")
+        nunk += 1
     L.append("</orientation-shifts>")
-    dim = rng.randrange(0, 7)
-    band = rng.randrange(0, max(dim, 1))
+    dim = nunk + excess
+    band = rng.randrange(0, max(min(dim, 4), 1))
+    gen_result.neg_line = sum(x.count("\n") + 1 for x in L) + 2
     cnt = dim * (band + 1) - band * (band + 1) // 2
+    nind = dim
+    if excess:                      # refused at </band>: what follows is never read; keep the document small
+        cnt, nind = min(cnt, 6), min(dim, 6)
     L.append(f"<cov-mat>\n<dim>{dim}</dim> <band>{band}</band>")
     L.append(" ".join(f"<flt>{_f(rng)}</flt>" for _ in range(cnt)))
     L.append("</cov-mat>")
-    L.append("<original-index>\n" + " ".join(f"<ind>{_i(rng)}</ind>" for _ in range(dim)) + "\n</original-index>")
+    L.append("<original-index>\n" + " ".join(f"<ind>{_i(rng)}</ind>" for _ in range(nind)) + "\n</original-index>")
     L += ["</coordinates>", "<observations>"]
     for _ in range(rng.randrange(0, n + 2)):
         k = rng.choice(["distance", "direction", "angle", "slope-distance", "zenith-angle", "azimuth", "dx", "dy", "dz", "height-diff",
@@ -267,7 +286,9 @@ def run_stream(ctx, corr, bases=None):
     corpus = ctx.verif / "corpus" / "C11"
     if corpus.exists():
         for f in sorted(corpus.glob("result-*.xml")):
-            docs.append(("corpus " + f.name, f.read_bytes(), -2, None))
+            docs.append(("corpus " + f.name, f.read_bytes(), -2, CORPUS_EXPECT.get(f.name)))
+            if f.name in CORPUS_EXPECT:
+                docs.append(("corpus " + f.name + " one chunk", f.read_bytes(), -1, CORPUS_EXPECT.get(f.name)))
     for name, x, _h in (bases or []):
         docs.append((f"result of {name}", x, -2, "accept"))
         docs.append((f"result of {name} one chunk", x, -1, "accept"))
@@ -287,7 +308,7 @@ def run_stream(ctx, corr, bases=None):
         impl, _, _, _, _ = run_events(ctx, exe, pre_docs)
         seen = {}
         for (lab, b, _), out in zip(pre_docs, impl):
-            R = [l for l in out if l.startswith("R ") and len(l.split()) == 7]
+            R = [l for l in out if l.startswith("R ") and len(l.split()) == 8]
             if R:
                 key = (R[-1].split()[1], b.rstrip().endswith(b">"))
                 seen.setdefault(key, b)
@@ -320,6 +341,10 @@ def run_stream(ctx, corr, bases=None):
         docs.append((lab, t.encode(), -1, None))
     for lab, t in cov_variants(rng):
         docs.append((lab, t.encode(), -1, None))
+    for i in range(ctx.size(6, 100)):      # NEGATIVE cases: <dim> exceeds the unknowns announced before <cov-mat>
+        g = gen_result(rng, excess=rng.choice([1, 1, 2, 5, 1000, 2147483647]))
+        docs.append((f"generated inconsistent {i}: dim exceeds the announced unknowns", g.encode(), rng.choice([-1, -2]),
+                     ("refuse", gen_result.neg_line)))
     for i in range(ctx.size(30, 1500)):
         g = gen_result(rng) if rng.random() < 0.9 else gen_error_doc(rng)
         b = g.encode()
@@ -332,7 +357,7 @@ def run_stream(ctx, corr, bases=None):
     states = set()
     for i, (label, b, k, expect) in enumerate(docs):
         out = impl[i]
-        R = [l for l in out if l.startswith("R ") and len(l.split()) == 7]      # a crash may cut the last line
+        R = [l for l in out if l.startswith("R ") and len(l.split()) == 8]      # a crash may cut the last line
         O = [l for l in out if l.startswith("O ")]
         for l in R:
             states.add(l.split()[1])
@@ -388,6 +413,12 @@ def run_stream(ctx, corr, bases=None):
             if f[4] != "-" and f[5] != "-" and int(f[4]) > int(f[5]):
                 corr.fail(f"adjustment-results reader: tmp_i beyond tmp_e ({l}) [{label}]", payload, "LocalNetworkAdjustmentResults::Parser::flt", l)
                 break
+        if isinstance(expect, tuple) and expect[0] == "refuse":
+            corr.count("adjres_negative_docs")
+            if not (t[1] == "parser" and int(t[2]) == expect[1]):
+                corr.fail(f"adjustment-results reader: <dim> exceeds the unknowns announced before <cov-mat> but the answer is {O[0]} "
+                          f"instead of a refusal naming line {expect[1]} [{label}]", payload,
+                          "LocalNetworkAdjustmentResults::Parser::band", "\n".join(out[-4:]))
         if expect == "accept" and t[1] != "ok":
             corr.fail(f"adjustment-results reader refuses a grammar-derived / gama-local's own result ({O[0]}) [{label}]", payload,
                       "LocalNetworkAdjustmentResults::Parser", "\n".join(out[-4:]))
